@@ -323,7 +323,7 @@ Proof.
 Qed.
 
 (* the path text as a non-empty list of segments joined with "/" *)
-Definition text_segs (u : uri) : list text :=
+Definition text_segs (u : uri) : list Chars.text :=
   (if absolutePath u || (is_some (hostText u) && negb (match pathSegs u with [] => true | _ => false end))
    then [[]] else [])
   ++ match pathSegs u with [] => [[]] | _ => pathSegs u end.
@@ -460,3 +460,183 @@ Proof.
   - apply MAltR. unfold Rfc3986.relative_ref. cbn [Rfc3986.seqs app].
     apply MSeq; [exact Hp|]. apply MSeq; assumption.
 Qed.
+
+(* ================================================================ 5. A2: the splitter on the text *)
+(* splitting at "/" and joining with "/" is the identity *)
+Lemma join_split p : join_slash (split_on 47 p) = p.
+Proof.
+  induction p as [|c r IH]; [reflexivity|]. cbn [split_on]. destruct (c =? 47) eqn:E.
+  - apply N.eqb_eq in E. subst c. rewrite join_slash_cons. cbn [app].
+    rewrite slashed_join by apply split_on_nonnil. rewrite IH. reflexivity.
+  - destruct (split_on 47 r) as [|x xs] eqn:Es; [exfalso; exact (split_on_nonnil 47 r Es)|].
+    rewrite join_slash_cons in *. cbn [app]. rewrite IH. reflexivity.
+Qed.
+
+(* the path text of an object with the given flags *)
+Definition pt (hosted abs : bool) (segs : list Chars.text) : Chars.text :=
+  (if abs || (hosted && negb (match segs with [] => true | _ => false end)) then [47] else [])
+  ++ join_slash segs.
+
+Lemma path_text_pt u : path_text u = pt (is_some (hostText u)) (absolutePath u) (pathSegs u).
+Proof. reflexivity. Qed.
+
+(* whatever path text is split, the flag and segments obtained have that path text -- provided that
+   after an authority the path is empty or begins with "/" *)
+Lemma sp_path_text (auth : option Chars.text) (P : Chars.text) :
+  (auth <> None -> P = [] \/ head_is 47 P = true) ->
+  pt (is_some auth) (fst (sp_path auth P)) (snd (sp_path auth P)) = P.
+Proof.
+  intros H. destruct P as [|c p]; [destruct auth; reflexivity|].
+  unfold sp_path. cbn [strip_char]. destruct (c =? 47) eqn:E.
+  - apply N.eqb_eq in E. subst c. destruct auth as [a|]; cbn [fst snd is_some].
+    + unfold pt. destruct (split_on 47 p) as [|x xs] eqn:Es; [exfalso; exact (split_on_nonnil 47 p Es)|].
+      cbn [orb andb negb app]. rewrite <- Es, join_split. reflexivity.
+    + unfold pt. cbn [orb app]. destruct p as [|d p]; [reflexivity|]. rewrite join_split. reflexivity.
+  - destruct auth as [a|]; cbn [fst snd is_some].
+    + exfalso. destruct H as [H|H]; [discriminate|discriminate H|]. cbn [head_is] in H. rewrite E in H. discriminate H.
+    + unfold pt. cbn [orb andb app]. apply join_split.
+Qed.
+
+Lemma sp_path_some a a' P : sp_path (Some a) P = sp_path (Some a') P.
+Proof. unfold sp_path. destruct P as [|c p]; [reflexivity|]. destruct (strip_char 47 (c :: p)); reflexivity. Qed.
+
+(* what the splitter makes of the text: the object with the host text as written, the address fields
+   as the splitter computes them from that text, and the path split at "/" *)
+Definition reread_obj (u : uri) : uri :=
+  let ps := sp_path (hostText u) (path_text u) in
+  match hostText u with
+  | None => mkUri (scheme u) None None None None None None (snd ps) (query u) (fragment u) (fst ps) false
+  | Some h =>
+    let h' := host_written u h in
+    mkUri (scheme u) (userInfo u) (Some h')
+      (if is_lit u then None else if matchb Rfc3986.IPv4address h' then Some (ip4_value h') else None)
+      (ip6 u) (match ipFuture u with Some _ => Some h' | None => None end)
+      (portText u) (snd ps) (query u) (fragment u) (fst ps) false
+  end.
+
+Lemma future_v_start h : matchb Rfc3986.IPvFuture h = true -> head_is 118 h || head_is 86 h = true.
+Proof.
+  intros H. apply matchb_spec in H. unfold Rfc3986.IPvFuture in H. cbn [Rfc3986.seqs] in H.
+  apply seq_inv in H. destruct H as (a & b & -> & Ha & _). apply chr_inv in Ha. destruct Ha as (c & -> & Hc).
+  cbn [app head_is]. destruct Hc as [<-|[<-|[]]]; reflexivity.
+Qed.
+
+Lemma avoid6 (t : Chars.text) stops : avoid [47; 63; 35; 64; 91; 93] t ->
+  forallb (fun k => mem k [47; 63; 35; 64; 91; 93]) stops = true -> avoid stops t.
+Proof.
+  intros H Hs. revert H. apply avoid_sub. intros c Hc. apply mem_In in Hc.
+  rewrite forallb_forall in Hs. exact (Hs c Hc).
+Qed.
+
+(* the written host text contains no delimiter of the authority, and no ":" unless bracketed *)
+Lemma host_written_avoid u h : host_ok u -> hostText u = Some h ->
+  avoid [47; 63; 35; 64; 91; 93] (host_written u h) /\ (is_lit u = false -> avoid [58] (host_written u h)).
+Proof.
+  unfold host_ok, host_written, is_lit. intros H E. rewrite E in H. destruct H as [_ H].
+  destruct (ip4 u) as [o|], (ip6 u) as [b|], (ipFuture u) as [f|]; try contradiction; cbn [is_some orb].
+  - destruct H as [Hm _]. apply matchb_spec in Hm.
+    split; [|intros _]; revert Hm; apply matches_avoid; vm_compute; reflexivity.
+  - destruct H as [Hl Hb]. pose proof (groups_text_ip6 b Hl Hb) as Hm.
+    split; [|intros Hf; discriminate Hf]. revert Hm. apply matches_avoid. vm_compute. reflexivity.
+  - destruct H as [_ Hm]. apply matchb_spec in Hm.
+    split; [|intros Hf; discriminate Hf]. revert Hm. apply matches_avoid. vm_compute. reflexivity.
+  - destruct H as [Hc _]. split; [|intros _]; revert Hc; apply class_avoid; reflexivity.
+Qed.
+
+Lemma qf_no_slash qu fr : head_is 47 (qf_part qu fr) = false.
+Proof. destruct qu, fr; reflexivity. Qed.
+
+Lemma no_dslash_app P R : no_dslash_start P -> head_is 47 R = false -> no_dslash_start (P ++ R).
+Proof.
+  unfold no_dslash_start. intros HP HR. destruct P as [|a [|b P]]; cbn [app head_is tl] in *.
+  - rewrite HR. reflexivity.
+  - rewrite HR. apply andb_false_r.
+  - exact HP.
+Qed.
+
+Theorem split_to_text u : produced_wf u -> split_spec (to_text u) = reread_obj u.
+Proof.
+  intros (Hsc & Hui & Hh & Hpo & Hps & Hqu & Hfr & Hpu & Hau).
+  rewrite (to_text_parts u Hh), split_spec_stages.
+  destruct (text_segs_ok u Hps) as [Hn HL]. pose proof (path_text_join u) as EP.
+  assert (avoid [63; 35] (path_text u)) as HP.
+  { rewrite EP. apply avoid_join; [reflexivity|]. apply segs_avoid; [reflexivity|exact HL]. }
+  assert (opt_ok (avoid [35]) (query u)) as Hq35.
+  { revert Hqu. apply opt_ok_impl. intros t [Hc _]. revert Hc. apply class_avoid. reflexivity. }
+  destruct (sp_query_qf (query u) (fragment u) Hq35) as [Eq Ef].
+  unfold reread_obj, auth_text. destruct (hostText u) as [h|] eqn:E.
+  - (* with an authority *)
+    assert (absolutePath u = false) as Ha by (unfold host_ok in Hh; rewrite E in Hh; exact (proj1 Hh)).
+    pose proof (path_text_hosted u h E Ha) as EPh.
+    destruct (host_written_avoid u h Hh E) as [Hh6 Hh58].
+    set (h' := host_written u h) in *.
+    set (A := opt_post (userInfo u) [64] ++ host_wr u h ++ opt_pre [58] (portText u)).
+    rewrite <- !app_assoc.
+    rewrite sp_scheme_opt; [|exact Hsc|].
+    2:{ intros _. exists [], ([47; 47] ++ A ++ path_text u ++ qf_part (query u) (fragment u)). repeat split; reflexivity. }
+    cbv beta iota.
+    assert (opt_ok (avoid [47; 63; 35; 64]) (userInfo u)) as Hui'.
+    { revert Hui. apply opt_ok_impl. intros t [Hc _]. revert Hc. apply class_avoid. reflexivity. }
+    assert (opt_ok (avoid [47; 63; 35; 64]) (portText u)) as Hpo'.
+    { revert Hpo. apply opt_ok_impl. intros t Hc. revert Hc. apply class_avoid. reflexivity. }
+    assert (forall t, avoid [47; 63; 35; 64] t -> avoid [47; 63; 35] t) as Hsub.
+    { intros t. apply avoid_sub. intros c. cbn [mem]. intros H. rewrite !orb_true_iff in *. tauto. }
+    assert (avoid [47; 63; 35] A) as HA.
+    { unfold A. apply avoid_app; [apply avoid_opt_post; [revert Hui'; apply opt_ok_impl; exact Hsub|reflexivity]|].
+      apply avoid_app; [|apply avoid_opt_pre; [revert Hpo'; apply opt_ok_impl; exact Hsub|reflexivity]].
+      unfold host_wr. fold h'. pose proof (avoid6 h' [47; 63; 35] Hh6 eq_refl) as H3.
+      destruct (is_lit u); [|exact H3]. apply avoid_app; [reflexivity|]. apply avoid_app; [exact H3|reflexivity]. }
+    rewrite sp_auth_some; [|exact HA|rewrite EPh; apply slashed_stops; apply qf_stops3]. cbv beta iota.
+    rewrite span_app; [|exact HP|apply qf_stops]. cbv beta iota.
+    rewrite Eq. cbv beta iota zeta. rewrite Ef.
+    rewrite (sp_path_some A h (path_text u)). unfold Chars.text in *.
+    destruct (sp_path (Some h) (path_text u)) as [abs segs]. cbn [fst snd].
+    unfold sp_build, A, host_wr. fold h'. rewrite split_authority_parts.
+    + clear Hh6 Hh58 HA A. subst h'. unfold host_ok in Hh. rewrite E in Hh. destruct Hh as [_ Hh].
+      unfold host_written, is_lit.
+      destruct (ip4 u) as [o|], (ip6 u) as [b|], (ipFuture u) as [f|]; try contradiction; cbn [is_some orb].
+      * reflexivity.
+      * destruct Hh as [Hl Hb]. rewrite (groups_text_not_v b Hl Hb), (ip6_value_groups_text b Hl Hb). reflexivity.
+      * destruct Hh as [_ Hm]. rewrite (future_v_start h Hm). reflexivity.
+      * reflexivity.
+    + revert Hui'. apply opt_ok_impl. intros t. apply avoid_sub. intros c. cbn [mem]. intros H. rewrite !orb_true_iff in *. tauto.
+    + apply (avoid_notin _ _ 64 Hh6). reflexivity.
+    + revert Hpo'. apply opt_ok_impl. intros t Ht. apply (avoid_notin _ _ 64 Ht). reflexivity.
+    + destruct (is_lit u); [exact (avoid6 h' [93] Hh6 eq_refl)|]. split; [exact (Hh58 eq_refl)|exact (avoid6 h' [91] Hh6 eq_refl)].
+  - (* without *)
+    unfold path_unambiguous in Hpu. rewrite E in Hpu. destruct Hpu as [Hd Hc]. cbn [app].
+    rewrite sp_scheme_opt; [|exact Hsc|].
+    2:{ intros Hs. specialize (Hc Hs). rewrite EP in *.
+        destruct (text_segs u) as [|s r]; [contradiction|]. inversion HL as [|? ? Hs1 Hr]; subst.
+        rewrite (first_segment s r Hs1) in Hc. cbn [fst] in Hc. rewrite join_slash_cons.
+        exists s, (slashed r ++ qf_part (query u) (fragment u)). rewrite <- app_assoc.
+        split; [reflexivity|]. split; [|apply slashed_stops; apply qf_stops3].
+        destruct Hs1 as [Hs1 _]. pose proof (class_avoid is_pchar [47; 63; 35] s eq_refl Hs1) as H3.
+        unfold avoid in *. rewrite forallb_forall in *. intros c Hi. specialize (H3 c Hi). cbn [mem] in *.
+        destruct (c =? 58) eqn:E58; [apply N.eqb_eq in E58; subst; contradiction|exact H3]. }
+    cbv beta iota. rewrite sp_auth_none by (apply no_dslash_app; [exact Hd|apply qf_no_slash]). cbv beta iota.
+    rewrite span_app; [|exact HP|apply qf_stops]. cbv beta iota.
+    rewrite Eq. cbv beta iota zeta. rewrite Ef.
+    unfold Chars.text in *. destruct (sp_path None (path_text u)) as [abs segs]. reflexivity.
+Qed.
+
+Lemma same_meaning_reread u : produced_wf u -> same_meaning u (reread_obj u).
+Proof.
+  intros (_ & _ & Hh & _ & _ & _ & _ & _ & Hau).
+  assert (path_text (reread_obj u) = path_text u) as EP.
+  { rewrite (path_text_pt (reread_obj u)). unfold reread_obj.
+    destruct (hostText u) as [h|] eqn:E;
+      cbn [hostText absolutePath pathSegs]; change (is_some (Some ?x)) with (is_some (Some h)).
+    - apply sp_path_text. intros _.
+      assert (absolutePath u = false) as Ha by (unfold host_ok in Hh; rewrite E in Hh; exact (proj1 Hh)).
+      rewrite (path_text_hosted u h E Ha). destruct (pathSegs u); [left|right]; reflexivity.
+    - apply sp_path_text. intros H. contradiction. }
+  unfold same_meaning. rewrite EP. clear EP.
+  unfold reread_obj, host_of, auth_ok, host_written in *. destruct (hostText u) as [h|];
+    cbn [scheme userInfo hostText ip6 ipFuture portText query fragment].
+  - repeat split. destruct (ip6 u); [reflexivity|]. destruct (ipFuture u); reflexivity.
+  - destruct Hau as [-> ->]. repeat split.
+Qed.
+
+Theorem produced_text_splits u : produced_wf u -> same_meaning u (split_spec (to_text u)).
+Proof. intros H. rewrite (split_to_text u H). exact (same_meaning_reread u H). Qed.
